@@ -194,39 +194,28 @@ Section ArrPhase.
       + intros k. now rewrite inP_noteEndIndex.
   Qed.
 
-  (** the spec's view of the items keywords, by draft *)
-  Definition sp_prefix : list schema := if e_draft7 e then olist (s_itemsArray s) else olist (s_prefixItems s).
-  Definition sp_pname : str := if e_draft7 e then lit "items"%lit else lit "prefixItems"%lit.
-  Definition sp_rest : option (str * schema) :=
-    if e_draft7 e
-    then match s_itemsArray s with
-         | Some _ => option_map (fun c => (lit "additionalItems"%lit, c)) (s_additionalItems s)
-         | None => option_map (fun c => (lit "items"%lit, c)) (s_items s)
-         end
-    else option_map (fun c => (lit "items"%lit, c)) (s_items s).
-
   Lemma zip_nil items : zip_items v items [] = Ok tt.
   Proof. destruct items; reflexivity. Qed.
 
   Lemma items_part_spec a0 gitems rp rr :
     wfl gitems ->
-    eval_all (fun xc => ev (fst xc) (ch_i l sp_pname (fst (snd xc))) (snd (snd xc)))
-             (combine (map den gitems) (idx_list sp_prefix)) = Some rp ->
-    (match sp_rest with
-     | Some (name, c) => eval_all (fun x => ev x (ch l name) c) (skipn (length sp_prefix) (map den gitems))
+    eval_all (fun xc => ev (fst xc) (ch_i l (ar_prefix_name e) (fst (snd xc))) (snd (snd xc)))
+             (combine (map den gitems) (idx_list (ar_prefix_list e s))) = Some rp ->
+    (match ar_rest_schema e s with
+     | Some (name, c) => eval_all (fun x => ev x (ch l name) c) (skipn (length (ar_prefix_list e s)) (map den gitems))
      | None => Some []
      end) = Some rr ->
     let len := length gitems in
-    let np := Nat.min (length sp_prefix) len in
-    let i_rest := match sp_rest with Some _ => seq (length sp_prefix) (len - length sp_prefix) | None => [] end in
+    let np := Nat.min (length (ar_prefix_list e s)) len in
+    let i_rest := match ar_rest_schema e s with Some _ => seq (length (ar_prefix_list e s)) (len - length (ar_prefix_list e s)) | None => [] end in
     if all_true rp && all_true rr
     then exists a1, items_part e v l s gitems a0 = Ok a1 /\
                     (forall i, i < len -> inI a1 i = inI a0 i || mem_nat i (seq 0 np ++ i_rest)) /\
                     (forall k, inP a1 k = inP a0 k)
     else items_part e v l s gitems a0 = Err.
   Proof.
-    intros Hw Hp Hr. pose proof (items_shape sp_prefix sp_pname sp_rest a0 gitems rp rr Hw Hp Hr) as H.
-    cbn zeta in *. unfold items_part, sp_prefix, sp_pname, sp_rest in *.
+    intros Hw Hp Hr. pose proof (items_shape (ar_prefix_list e s) (ar_prefix_name e) (ar_rest_schema e s) a0 gitems rp rr Hw Hp Hr) as H.
+    cbn zeta in *. unfold items_part, ar_prefix_list, ar_prefix_name, ar_rest_schema in *.
     destruct (e_draft7 e).
     - destruct (s_itemsArray s) as [ia|].
       + cbn [olist] in *. destruct (s_additionalItems s); cbn [option_map] in *; exact H.
@@ -449,10 +438,9 @@ Section ArrPhase4.
     else arrays_phase hash e v l s gitems a0 = Err.
   Proof.
     intros items j Hw Hs Hpre Hsgm Hu.
-    unfold spec_arrays in Hs.
-    fold (sp_prefix e s) in Hs. fold (sp_pname e) in Hs. fold (sp_rest e s) in Hs.
-    destruct (eval_all _ (combine items (idx_list (sp_prefix e s)))) as [rp|] eqn:Hp; [|discriminate].
-    destruct (match sp_rest e s with Some (name, c) => _ | None => Some [] end) as [rr|] eqn:Hr; [|discriminate].
+    unfold spec_arrays, ar_prefix, ar_rest, ar_contains in Hs. cbn zeta in Hs.
+    destruct (eval_all _ (combine items (idx_list (ar_prefix_list e s)))) as [rp|] eqn:Hp; [|discriminate].
+    destruct (match ar_rest_schema e s with Some (name, c) => _ | None => Some [] end) as [rr|] eqn:Hr; [|discriminate].
     destruct (match s_contains s with Some c => _ | None => Some None end) as [rc|] eqn:Hc; [|discriminate].
     injection Hs as Hok Hia.
     assert (Hlen : length items = length gitems) by apply map_length.
